@@ -603,10 +603,16 @@ impl<'a> EbpfVmMbuff<'a> {
         // The last two arguments are not used in this function. They would be used if there was a
         // need to indicate to the JIT at which offset in the mbuff mem_ptr and mem_ptr + mem.len()
         // should be stored; this is what happens with struct EbpfVmFixedMbuff.
+        // As in the interpreter, r1 points to the metadata buffer only if there is one; with an
+        // empty metadata buffer it points to the packet data (or is null if that is empty too).
+        let mbuff_ptr = match mbuff.len() {
+            0 => mem_ptr,
+            _ => mbuff.as_ptr() as *mut u8,
+        };
         unsafe {
             match &self.jit {
                 Some(jit) => Ok(jit.get_prog()(
-                    mbuff.as_ptr() as *mut u8,
+                    mbuff_ptr,
                     mbuff.len(),
                     mem_ptr,
                     mem.len(),
